@@ -33,7 +33,7 @@ def main():
     props = [json.loads(l) for l in open(os.path.join(HERE, "properties.jsonl"))]
     man = {
         "version": 1,
-        "setup_cmd": "cd lean && lake build",
+        "setup_cmd": "tools/setup.sh",
         "hooks": {
             "guard": "PYANALYZE_VERIF",
             "enable": "none needed: the checks call pyanalyze's public API in-process from /repo's working tree; no hook commits exist",
